@@ -2309,6 +2309,13 @@ class MySQLDDLCompiler(
         self, drop: ddl.DropConstraint, **kw: Any
     ) -> str:
         constraint = drop.element
+        if constraint.name is None and not isinstance(
+            constraint, sa_schema.PrimaryKeyConstraint
+        ):
+            raise exc.CompileError(
+                "Can't emit DROP CONSTRAINT for constraint %r; "
+                "it has no name" % constraint
+            )
         if isinstance(constraint, sa_schema.ForeignKeyConstraint):
             qual = "FOREIGN KEY "
             const = self.preparer.format_constraint(constraint)
@@ -2553,8 +2560,9 @@ class MySQLTypeCompiler(
             return self._extend_numeric(type_, "SMALLINT")
 
     def visit_BIT(self, type_: BIT, **kw: Any) -> str:
-        if type_.length is not None:
-            return "BIT(%s)" % type_.length
+        length = getattr(type_, "length", None)
+        if length is not None:
+            return "BIT(%s)" % length
         else:
             return "BIT"
 
